@@ -1,10 +1,9 @@
 ----------------------------- MODULE WireSchema -----------------------------
 (***************************************************************************)
 (* Schemas of the MLSMessage framing layer (RFC 9420 section 6) built from  *)
-(* the Codec combinators.  For PrivateMessage and Welcome the schema is     *)
-(* complete (every byte is accounted for), so the reference verdict         *)
-(* "decodes and consumes all input" must equal MlsMessage::from_bytes'.     *)
-(* For the other wire formats only the common header is described.         *)
+(* the Codec combinators.  The schema of every wire format is complete     *)
+(* (every byte is accounted for), so the reference verdict "decodes and     *)
+(* consumes all input" must equal MlsMessage::from_bytes'.                  *)
 (***************************************************************************)
 EXTENDS Codec
 
@@ -38,6 +37,156 @@ Welcome(b, p) ==
     LET ss == Secrets(b, h.p, h.p + h.v) IN IF ~ss.ok THEN Fail ELSE
     LET gi == Opaque(b, h.p + h.v) IN IF ~gi.ok THEN Fail ELSE Ok(cs.v, gi.p)
 
+-----------------------------------------------------------------------------
+(* Bodies of the remaining wire formats.  A parser returns Ok(_, next position) or Fail; `In(r, end)` keeps   *)
+(* a nested element inside the vector that contains it.                                                        *)
+In(r, end) == r.ok /\ r.p <= end + 1
+
+\* a vector<V> whose elements are parsed by the recursive operator Elem(b, p, end) until `end` is reached
+VecHeader(b, p) == LET h == VarInt(b, p) IN IF ~h.ok \/ ~Avail(b, h.p, h.v) THEN Fail ELSE Ok(h.v, h.p)
+
+\* Extension extensions<V>: { ExtensionType(2); opaque data<V> }; a type may occur only once (ExtensionList decoder)
+RECURSIVE ExtItems(_, _, _, _)
+ExtItems(b, p, end, seen) ==
+    IF p = end + 1 THEN Ok(0, p)
+    ELSE LET t == U16(b, p) IN IF ~In(t, end) \/ t.v \in seen THEN Fail ELSE
+         LET d == Opaque(b, t.p) IN IF ~In(d, end) THEN Fail ELSE ExtItems(b, d.p, end, seen \cup {t.v})
+Extensions(b, p) == LET h == VecHeader(b, p) IN IF ~h.ok THEN Fail ELSE ExtItems(b, h.p, h.p + h.v - 1, {})
+
+\* Certificate certificates<V> (each opaque cert_data<V>)
+RECURSIVE OpaqueItems(_, _, _)
+OpaqueItems(b, p, end) ==
+    IF p = end + 1 THEN Ok(0, p)
+    ELSE LET d == Opaque(b, p) IN IF ~In(d, end) THEN Fail ELSE OpaqueItems(b, d.p, end)
+OpaqueVec(b, p) == LET h == VecHeader(b, p) IN IF ~h.ok THEN Fail ELSE OpaqueItems(b, h.p, h.p + h.v - 1)
+
+\* Credential: basic(1): opaque identity<V>; x509(2): Certificate chain<V>; any other type: opaque data<V>
+Credential(b, p) ==
+    LET t == U16(b, p) IN IF ~t.ok THEN Fail
+    ELSE IF t.v = 2 THEN OpaqueVec(b, t.p) ELSE Opaque(b, t.p)
+
+\* Capabilities: five vectors of 2-byte code points
+Capabilities(b, p) ==
+    LET v1 == VectorFixed(b, p, 2) IN IF ~v1.ok THEN Fail ELSE
+    LET v2 == VectorFixed(b, v1.p, 2) IN IF ~v2.ok THEN Fail ELSE
+    LET v3 == VectorFixed(b, v2.p, 2) IN IF ~v3.ok THEN Fail ELSE
+    LET v4 == VectorFixed(b, v3.p, 2) IN IF ~v4.ok THEN Fail ELSE
+    VectorFixed(b, v4.p, 2)
+
+\* LeafNode { encryption_key<V>; signature_key<V>; Credential; Capabilities; source(1): key_package(1) Lifetime{8,8} /
+\*            update(2) / commit(3) parent_hash<V>; extensions<V>; signature<V> }
+LeafNode(b, p) ==
+    LET ek == Opaque(b, p) IN IF ~ek.ok THEN Fail ELSE
+    LET sk == Opaque(b, ek.p) IN IF ~sk.ok THEN Fail ELSE
+    LET cr == Credential(b, sk.p) IN IF ~cr.ok THEN Fail ELSE
+    LET ca == Capabilities(b, cr.p) IN IF ~ca.ok THEN Fail ELSE
+    LET so == U8(b, ca.p) IN IF ~so.ok \/ so.v \notin {1, 2, 3} THEN Fail ELSE
+    LET af == IF so.v = 1 THEN (IF Avail(b, so.p, 16) THEN Ok(0, so.p + 16) ELSE Fail)
+              ELSE IF so.v = 3 THEN Opaque(b, so.p) ELSE Ok(0, so.p) IN IF ~af.ok THEN Fail ELSE
+    LET ex == Extensions(b, af.p) IN IF ~ex.ok THEN Fail ELSE
+    Opaque(b, ex.p)
+
+\* KeyPackage { version(2); cipher_suite(2); init_key<V>; LeafNode; extensions<V>; signature<V> }
+KeyPackage(b, p) ==
+    LET v == U16(b, p) IN IF ~v.ok THEN Fail ELSE
+    LET c == U16(b, v.p) IN IF ~c.ok THEN Fail ELSE
+    LET ik == Opaque(b, c.p) IN IF ~ik.ok THEN Fail ELSE
+    LET ln == LeafNode(b, ik.p) IN IF ~ln.ok THEN Fail ELSE
+    LET ex == Extensions(b, ln.p) IN IF ~ex.ok THEN Fail ELSE
+    Opaque(b, ex.p)
+
+\* GroupContext { version(2); cipher_suite(2); group_id<V>; epoch(8); tree_hash<V>; confirmed_transcript_hash<V>; extensions<V> }
+GroupContext(b, p) ==
+    LET v == U16(b, p) IN IF ~v.ok THEN Fail ELSE
+    LET c == U16(b, v.p) IN IF ~c.ok THEN Fail ELSE
+    LET g == Opaque(b, c.p) IN IF ~g.ok THEN Fail ELSE
+    LET e == U64(b, g.p) IN IF ~e.ok THEN Fail ELSE
+    LET th == Opaque(b, e.p) IN IF ~th.ok THEN Fail ELSE
+    LET ch == Opaque(b, th.p) IN IF ~ch.ok THEN Fail ELSE
+    Extensions(b, ch.p)
+
+\* a leaf index: uint32 on the wire; mls-rs accepts only values below 2^24 (named deviation from the RFC grammar,
+\* which admits every uint32: trees of more than 2^24 leaves are not supported)
+LeafIdx(b, p) == LET x == U32(b, p) IN IF ~x.ok \/ x.v[1] > 255 THEN Fail ELSE x
+
+\* GroupInfo { GroupContext; extensions<V>; confirmation_tag<V>; signer(4); signature<V> }
+GroupInfo(b, p) ==
+    LET gc == GroupContext(b, p) IN IF ~gc.ok THEN Fail ELSE
+    LET ex == Extensions(b, gc.p) IN IF ~ex.ok THEN Fail ELSE
+    LET ct == Opaque(b, ex.p) IN IF ~ct.ok THEN Fail ELSE
+    LET si == LeafIdx(b, ct.p) IN IF ~si.ok THEN Fail ELSE
+    Opaque(b, si.p)
+
+\* PreSharedKeyID { psktype(1): external(1) psk_id<V> / resumption(2) usage(1) in 1..3, group_id<V>, epoch(8); nonce<V> }
+PskId(b, p) ==
+    LET t == U8(b, p) IN IF ~t.ok \/ t.v \notin {1, 2} THEN Fail ELSE
+    LET body == IF t.v = 1 THEN Opaque(b, t.p)
+                ELSE (LET u == U8(b, t.p) IN IF ~u.ok \/ u.v \notin {1, 2, 3} THEN Fail ELSE
+                      LET g == Opaque(b, u.p) IN IF ~g.ok THEN Fail ELSE U64(b, g.p))
+    IN IF ~body.ok THEN Fail ELSE Opaque(b, body.p)
+
+\* Proposal { type(2); select: add(1) KeyPackage; update(2) LeafNode; remove(3) uint32; psk(4) PreSharedKeyID;
+\*            reinit(5) group_id<V>, version(2), cipher_suite(2), extensions<V>; external_init(6) kem_output<V>;
+\*            group_context_extensions(7) extensions<V>; 0 is reserved; anything else: opaque data<V> (custom) }
+Proposal(b, p) ==
+    LET t == U16(b, p) IN IF ~t.ok THEN Fail
+    ELSE IF t.v = 0 THEN Fail
+    ELSE IF t.v = 1 THEN KeyPackage(b, t.p)
+    ELSE IF t.v = 2 THEN LeafNode(b, t.p)
+    ELSE IF t.v = 3 THEN LeafIdx(b, t.p)
+    ELSE IF t.v = 4 THEN PskId(b, t.p)
+    ELSE IF t.v = 5 THEN (LET g == Opaque(b, t.p) IN IF ~g.ok THEN Fail ELSE
+                          LET v == U16(b, g.p) IN IF ~v.ok THEN Fail ELSE
+                          LET c == U16(b, v.p) IN IF ~c.ok THEN Fail ELSE Extensions(b, c.p))
+    ELSE IF t.v = 6 THEN Opaque(b, t.p)
+    ELSE IF t.v = 7 THEN Extensions(b, t.p)
+    ELSE Opaque(b, t.p)
+
+\* ProposalOrRef proposals<V>: { type(1): proposal(1) Proposal / reference(2) opaque ref<V> }
+RECURSIVE PorItems(_, _, _)
+PorItems(b, p, end) ==
+    IF p = end + 1 THEN Ok(0, p)
+    ELSE LET t == U8(b, p) IN IF ~In(t, end) \/ t.v \notin {1, 2} THEN Fail ELSE
+         LET x == IF t.v = 1 THEN Proposal(b, t.p) ELSE Opaque(b, t.p) IN IF ~In(x, end) THEN Fail ELSE PorItems(b, x.p, end)
+
+\* UpdatePathNode nodes<V>: { encryption_key<V>; HPKECiphertext encrypted_path_secret<V> { kem_output<V>; ciphertext<V> } }
+RECURSIVE CtItems(_, _, _)
+CtItems(b, p, end) ==
+    IF p = end + 1 THEN Ok(0, p)
+    ELSE LET k == Opaque(b, p) IN IF ~In(k, end) THEN Fail ELSE
+         LET c == Opaque(b, k.p) IN IF ~In(c, end) THEN Fail ELSE CtItems(b, c.p, end)
+RECURSIVE PathNodes(_, _, _)
+PathNodes(b, p, end) ==
+    IF p = end + 1 THEN Ok(0, p)
+    ELSE LET k == Opaque(b, p) IN IF ~In(k, end) THEN Fail ELSE
+         LET h == VecHeader(b, k.p) IN IF ~h.ok \/ h.p + h.v - 1 > end THEN Fail ELSE
+         LET cs == CtItems(b, h.p, h.p + h.v - 1) IN IF ~cs.ok THEN Fail ELSE PathNodes(b, cs.p, end)
+
+\* Commit { ProposalOrRef proposals<V>; optional<UpdatePath { LeafNode; UpdatePathNode nodes<V> }> path }
+Commit(b, p) ==
+    LET h == VecHeader(b, p) IN IF ~h.ok THEN Fail ELSE
+    LET ps == PorItems(b, h.p, h.p + h.v - 1) IN IF ~ps.ok THEN Fail ELSE
+    LET f == U8(b, ps.p) IN IF ~f.ok \/ f.v \notin {0, 1} THEN Fail
+    ELSE IF f.v = 0 THEN Ok(0, f.p)
+    ELSE LET ln == LeafNode(b, f.p) IN IF ~ln.ok THEN Fail ELSE
+         LET nh == VecHeader(b, ln.p) IN IF ~nh.ok THEN Fail ELSE PathNodes(b, nh.p, nh.p + nh.v - 1)
+
+\* PublicMessage { FramedContent { group_id<V>; epoch(8); Sender { type(1): member(1) leaf(4) / external(2) index(4) /
+\*   new_member_proposal(3) / new_member_commit(4) }; authenticated_data<V>; content_type(1): application(1) opaque<V> /
+\*   proposal(2) Proposal / commit(3) Commit }; FramedContentAuthData { signature<V>; confirmation_tag<V> if commit };
+\*   membership_tag<V> if the sender is a member }
+PublicMessage(b, p) ==
+    LET g == Opaque(b, p) IN IF ~g.ok THEN Fail ELSE
+    LET e == U64(b, g.p) IN IF ~e.ok THEN Fail ELSE
+    LET st == U8(b, e.p) IN IF ~st.ok \/ st.v \notin {1, 2, 3, 4} THEN Fail ELSE
+    LET sx == IF st.v \in {1, 2} THEN U32(b, st.p) ELSE Ok(0, st.p) IN IF ~sx.ok THEN Fail ELSE
+    LET ad == Opaque(b, sx.p) IN IF ~ad.ok THEN Fail ELSE
+    LET ct == U8(b, ad.p) IN IF ~ct.ok \/ ct.v \notin {1, 2, 3} THEN Fail ELSE
+    LET body == IF ct.v = 1 THEN Opaque(b, ct.p) ELSE IF ct.v = 2 THEN Proposal(b, ct.p) ELSE Commit(b, ct.p) IN IF ~body.ok THEN Fail ELSE
+    LET sg == Opaque(b, body.p) IN IF ~sg.ok THEN Fail ELSE
+    LET cf == IF ct.v = 3 THEN Opaque(b, sg.p) ELSE Ok(0, sg.p) IN IF ~cf.ok THEN Fail ELSE
+    IF st.v = 1 THEN Opaque(b, cf.p) ELSE Ok(0, cf.p)
+
 \* reference verdict for a complete MLSMessage: "accept" / "reject" / "unknown" (schema not complete here)
 Verdict(b) ==
     LET h == Header(b) IN
@@ -45,6 +194,8 @@ Verdict(b) ==
     \* (the version number is not interpreted by the decoder: it is checked when a message is processed)
     ELSE IF h.v[2] = 2 THEN (LET m == PrivateMessage(b, h.p) IN IF m.ok /\ m.p = Len(b) + 1 THEN "accept" ELSE "reject")
     ELSE IF h.v[2] = 3 THEN (LET m == Welcome(b, h.p) IN IF m.ok /\ m.p = Len(b) + 1 THEN "accept" ELSE "reject")
-    ELSE IF h.v[2] \in {1, 4, 5} THEN "unknown"
+    ELSE IF h.v[2] = 1 THEN (LET m == PublicMessage(b, h.p) IN IF m.ok /\ m.p = Len(b) + 1 THEN "accept" ELSE "reject")
+    ELSE IF h.v[2] = 4 THEN (LET m == GroupInfo(b, h.p) IN IF m.ok /\ m.p = Len(b) + 1 THEN "accept" ELSE "reject")
+    ELSE IF h.v[2] = 5 THEN (LET m == KeyPackage(b, h.p) IN IF m.ok /\ m.p = Len(b) + 1 THEN "accept" ELSE "reject")
     ELSE "reject"
 =============================================================================
